@@ -34,6 +34,7 @@ GFA1 = {
     "h2": ("H\txx:i:1", []),
     "h3": ("H\txx:i:2", []),
     "h4": ("H\tyy:Z:hello world\tzz:f:1.5", []),
+    "h5": ("H\tTS:i:100", []),
     "k1": ("# a comment", []),
     "t1": ("S\tD\tACGT\tLN:i:4\tRC:i:12\tab:Z:str\tcd:J:[1, 2]\tef:H:1A2B\tgh:B:c,1,-2\tij:A:x\tkl:f:0.25", []),
 }
@@ -75,6 +76,7 @@ GFA2 = {
     "h1": ("H\tVN:Z:2.0", []),
     "h2": ("H\txx:i:1", []),
     "h3": ("H\txx:i:2", []),
+    "h5": ("H\tTS:i:100", []),
     "k1": ("# a comment", []),
     "t1": ("S\tD\t4\tACGT\tRC:i:12\tab:Z:str\tcd:J:[1, 2]\tef:H:1A2B\tgh:B:c,1,-2\tij:A:x\tkl:f:0.25", []),
 }
